@@ -380,8 +380,8 @@ def check(idx: Index, rep: Report, tier: str) -> str:
     if bad_push:
         c = bad_push[0]
         r4b.fail(f.fq + ":purge", Finding("C11.R4", f.fq, "push-during-purge", f"`{unparse(c)}` queues operations reached from a nested operation inside the loop that purges `{opn}.walk()`: the walk is pre-order, so the single-use definition of a nested operand has already been removed when its user is visited and is pushed back - an erased, parent-less operation stays in the worklist and is handed to the patterns", f"{f.module.relpath}:{c.lineno}"))
-    elif purge_loops:
-        r4b.ok(f.fq + ":purge", f"{f.loc} the purge loop queues nothing")
+    else:
+        r4b.ok(f.fq + ":purge", f"{f.loc} the purge loop queues nothing" if purge_loops else f"{f.loc} no loop over {opn}.walk() (purge completeness is decided by the rule above)")
 
     # ---- R5: driver loops
     r5 = rep.rule("C11.R5", "the worklist loop resets and accumulates the action flag around every match; rewrite_region re-walks while any walk or post-walk step changed the IR", floor=3)
@@ -500,6 +500,20 @@ def check(idx: Index, rep: Report, tier: str) -> str:
             defs = [unparse(x) for _, x in reaching_defs(cfg, rt.value.id, cfg.node_of(rt)) if x is not None]
             if not all(any(cv in d for cv in ctrl) or d == "False" for d in defs) and not any(isinstance(s_, ast.AugAssign) and unparse(s_.target) == rt.value.id and any(cv in unparse(s_.value) for cv in ctrl) for s_ in walk_local(f.node)):
                 bad.append(("result", f"returned `{rt.value.id}` is not derived from the walk results {sorted(ctrl)}"))
+    # change accumulation (relational must-analysis, xsa/accum.py): at every `return x`, x >= every step result so far
+    from ..accum import analyse as _accum
+
+    is_src = lambda e_: isinstance(e_, ast.Call) and unparse(e_.func) in ("self._process_worklist", "self.post_walk_func")
+    IN_, names_ = _accum(f.node, cfg, is_src)
+    for rt in rets:
+        st_ = IN_.get(cfg.node_of(rt))
+        if st_ is None:
+            continue
+        if isinstance(rt.value, ast.Name) and rt.value.id in names_:
+            if not st_.cover[rt.value.id]:
+                bad.append((f"result-misses-change:{rt.value.id}", f"`return {rt.value.id}` (line {rt.lineno}) can be reached with a walk or post-walk step having reported a change that `{rt.value.id}` does not contain (the flag is accumulated before the last step that can change the IR is OR-ed in): rewrite_region answers False for IR it changed"))
+        elif isinstance(rt.value, ast.Constant) and rt.value.value is False and not st_.Z:
+            bad.append(("result-misses-change:False", f"`return False` (line {rt.lineno}) after a step that may have changed the IR"))
     (r5.ok(f.fq, f"{f.loc} while {v}: populate; {v} = process; {v} |= post_walk") if not bad else [r5.fail(f.fq, Finding("C11.R5", f.fq, k, m, f.loc)) for k, m in bad])
 
     # ---- R6: applier stops after the first pattern that acted; dead ops go through rewriter.erase
